@@ -324,6 +324,19 @@ class ExcFlow:
                 meth = cal.split(".")[-1]
                 if meth in EXTERNAL_METHOD_RAISES and "Ed25519PublicKey" in cal:
                     out |= set(EXTERNAL_METHOD_RAISES[meth])
+        # Task.result() / Task.exception() on a task stored on self: re-raises the task's exception (result) and raises
+        # CancelledError when the task was cancelled - without any cancellation of the caller
+        if isinstance(call.func, ast.Attribute) and call.func.attr in ("result", "exception") and not call.args:
+            v = call.func.value
+            owner = f
+            while owner.parent is not None:
+                owner = owner.parent
+            if isinstance(v, ast.Attribute) and isinstance(v.value, ast.Name) and v.value.id == "self" and owner.cls is not None:
+                t = self.res.task_attr(owner.cls.qualname, v.attr)
+                if t:
+                    out.add("asyncio.CancelledError[task]")
+                    if call.func.attr == "result":
+                        out |= self._callee_escapes(t)
         # generator protocol on a generator handed in from outside (parameter): any protocol generator may be behind it
         if (
             isinstance(call.func, ast.Attribute)
